@@ -209,11 +209,19 @@ def lastAtomAllowsUpdate (a : Atom) : Bool :=
    | some 36 => a.kind == .fuzzy      -- escaped `\$` at the end
    | _ => true)
 
-/-- `MultiPattern::reparse`'s status decision for one column -/
-def reparseStatus (old : PStatus) (oldAtoms : List Atom) (append : Bool) : PStatus :=
+/-- does the edit leave the last atom's normalization alone?  `a`: the last atom before the edit, `b`: the atom in its
+    place afterwards.  Appended text can switch smart normalization off (a character normalization would change), and
+    comparing haystack characters unnormalized is not a narrowing -/
+def normKept (oldAtoms newAtoms : List Atom) : Bool :=
+  match oldAtoms.getLast?, newAtoms[oldAtoms.length - 1]? with
+  | some a, some b => !(a.normalize && !b.normalize)
+  | _, _ => true
+
+/-- `MultiPattern::reparse`'s status decision for one column (`newAtoms`: the column's atoms after the edit) -/
+def reparseStatus (old : PStatus) (oldAtoms newAtoms : List Atom) (append : Bool) : PStatus :=
   let lastOk : Bool := match oldAtoms.getLast? with
     | none => true
     | some a => lastAtomAllowsUpdate a
-  if append && decide (old ≠ .rescore) && lastOk then .update else .rescore
+  if append && decide (old ≠ .rescore) && lastOk && normKept oldAtoms newAtoms then .update else .rescore
 
 end NucleoVerif
